@@ -6,7 +6,7 @@ from typing import Dict, List, Optional, Set, Tuple
 
 from ..model import AnalysisError, Func, const_str, dotted, kwarg, src, walk_no_defs
 from ..util import call_tail, find_calls, must_pass, no_exc, node_calls
-from .c08 import _discovery_filter
+from .c08 import _discovery_filter, tmp_name_rule
 
 EXPLANATION = (
     "C06 decided statically: (TABLE) every body key the loader reads is written by the writer on all paths, "
@@ -356,6 +356,7 @@ def rule_clamp(ctx) -> None:
 def rule_disc(ctx) -> None:
     fn = ctx.func(SNAP + ":_pick_latest_snapshot_path")
     _discovery_filter(ctx, fn, "C06.DISC")
+    tmp_name_rule(ctx, "C06.DISC")  # temp names '<name>.<rand>' cannot end in '.json'
     sc = ctx.func(SNAP + ":_write_sidecar_meta")
     rd = ctx.rd(sc)
     ws = find_calls(ctx, sc, lambda c, nm: nm.endswith(":atomic_write_text"))
